@@ -217,10 +217,12 @@ pub fn impl_(ctx: &Context, input: &DeriveInput) -> TokenStream {
                 quote! { let #uninit_ident = iter.finalize(); }
             };
 
+            let ty = &f.ty;
             items = quote! {
                 #items
                 #step
-                #item.emplace_unchecked(#uninit_ident)?;
+                // Not `#item.emplace_unchecked(..)`: an inherent method of the emplacer's type with that name would win.
+                ::flatty::Emplacer::<#ty>::emplace_unchecked(#item, #uninit_ident)?;
             }
         }
         items
